@@ -231,6 +231,9 @@ static void _destroy_exec_ctx(ExecCtx *e)
         list_iterator_destroy(e->stmtitr);
     e->stmtitr = NULL;
     e->cur = NULL;
+    if (e->plugitr)
+        pluglist_iterator_destroy(e->plugitr);
+    e->plugitr = NULL;
     if (e->plugs)
         list_destroy(e->plugs);
     if (e->pluglist)
